@@ -10,7 +10,7 @@ for d in seeded/*/; do
   case "$name" in *"$filter"*) ;; *) continue;; esac
   prop=$(python3 -c "import json;m=json.load(open('$d/meta.json'));print(' '.join(m.get('regress',[m['property']])))")
   expect=$(python3 -c "import json;m=json.load(open('$d/meta.json'));print(m.get('expect','VIOLATION'))")
-  patch="$d/patch.diff"; [ -f "$d/patch_ported_to_current_head.diff" ] && patch="$d/patch_ported_to_current_head.diff"
+  patch="$PWD/${d}patch.diff"; [ -f "${d}patch_ported_to_current_head.diff" ] && patch="$PWD/${d}patch_ported_to_current_head.diff"
   if ! git -C /repo apply "$patch" 2>/dev/null; then echo "$name: PATCH DOES NOT APPLY"; continue; fi
   res=""
   for p in $prop; do
